@@ -223,6 +223,22 @@ func c05(args []string) {
 						}
 					}
 				}
+				if len(comps) > 1 && r.chance(1, 3) { // every component non-zero: expansion runs through the whole container (all 64-bit words)
+					acc := new(big.Int)
+					pos := uint(0)
+					for _, cm := range comps {
+						v := r.word() & (uint64(1)<<uint(cm.Bits) - 1)
+						if v == 0 {
+							v = 1
+						}
+						acc.Or(acc, new(big.Int).Lsh(new(big.Int).SetUint64(v), pos))
+						pos += uint(cm.Bits)
+					}
+					for bi := range raw {
+						raw[bi] = byte(new(big.Int).Rsh(acc, uint(8*bi)).Uint64())
+					}
+					stat("rows_with_every_component_nonzero", 1)
+				}
 				if accum && j > 0 && r.chance(2, 3) { // small forward steps exercise the wrapping counter
 					prev := binary.LittleEndian.Uint64(append(append([]byte(nil), raws[j-1]...), make([]byte, 8)...)[:8])
 					copy(raw, leBytes(prev+uint64(r.intn(300)), minInt(width, 8)))
